@@ -5,4 +5,5 @@ D=$(mktemp -d /var/tmp/cocls_base.XXXXXX)
 trap 'rm -rf "$D"' EXIT
 cmake -G Ninja -S /repo -B "$D" -DCMAKE_BUILD_TYPE=Debug >/dev/null
 cmake --build "$D" -j16 >/dev/null
-ctest --test-dir "$D" -j8 --timeout 900 2>&1 | tail -25
+# the suite has wall-clock sensitive tests (sleep windows): a failed test is retried before it counts
+ctest --test-dir "$D" -j8 --timeout 900 --repeat until-pass:3 2>&1 | tail -25
